@@ -350,7 +350,24 @@ def r9_location_read_is_the_location_stored(cx):
     cx.ob("R9", "R9/pack_location-writers", not bad and n >= 1, "(crate)", "%d assignments to a pack_location field, all in PackInfo / creators / set_location" % n)
 
 
+def r10_packs_of_the_file_are_found_by_identity(cx):
+    """'only the location field of that pack changes': a location is a hint for packs that live elsewhere; a pack stored
+    in the file at hand is found by its uuid whatever its location says, so rewriting the location of an embedded pack
+    cannot make it disappear (= the chain clauses of C10-R1 under C12)"""
+    import c10
+    orig = cx.ob
+
+    def ob(rule, key, *a, **kw):
+        return orig("R10", "R10/" + key.split("/", 1)[1], *a, **kw)
+    cx.ob = ob
+    try:
+        c10.r1_chain(cx)
+    finally:
+        cx.ob = orig
+
+
 RULES = [
+    ("R10", r10_packs_of_the_file_are_found_by_identity, 6),
     ("R9", r9_location_read_is_the_location_stored, 1),
     ("R8", r8_location_slot_is_padded_in_one_piece, 2),
     ("R7", r7_reader_accepts_what_the_writer_accepts, 4),
